@@ -30,6 +30,7 @@ type opts struct {
 	profile string
 	only    int
 	dir     string
+	aux     string
 }
 
 func main() {
@@ -46,6 +47,7 @@ func main() {
 	fs.StringVar(&o.profile, "profile", "", "generator profile")
 	fs.IntVar(&o.only, "only", -1, "run only this history index (replay)")
 	fs.StringVar(&o.dir, "dir", "", "scratch directory (required for families that touch files)")
+	fs.StringVar(&o.aux, "aux", "", "auxiliary path (e.g. the built setec binary)")
 	outPath := fs.String("o", "-", "output file")
 	fs.Parse(os.Args[2:])
 	if *outPath == "-" {
@@ -66,6 +68,10 @@ func main() {
 		err = traceACL(o)
 	case "db":
 		err = traceDB(o)
+	case "cli":
+		err = traceCLI(o)
+	case "bytes":
+		err = traceBytes(o)
 	case "http":
 		err = traceHTTP(o)
 	case "fs":
